@@ -23,6 +23,8 @@ Proof.
   intros. rewrite bound_rec_S_some. rewrite (is_tvar_has_tv b H), H. reflexivity.
 Qed.
 
+Global Opaque is_subtype bound_rec to_tvf direct_supers sub_fuel.
+
 Section Body.
   Context (w : world) (alias : list (nat * nat)) (any : nat).
 
